@@ -34,6 +34,7 @@ def items(pr):
     out.append(lemma("C04.sum_of_parts"))
     out.append(custom("decimal_context", decimal_context))
     out.append(custom("rounding", rounding))
+    out.append(custom("rounding_ctors", rounding_ctors))
     return out
 
 
@@ -90,6 +91,73 @@ def rounding(pr):
         # in rounded mode callees must be inlined (their exact-real contracts do not describe rounded results)
         for f in FIGURES:
             S.CONTRACTS.pop(f"{GL}.{f}", None)
+        S.CONTRACTS[q] = k
+        try:
+            vcs = ex.verify(q, f"rounded:{q}")
+        finally:
+            S.CONTRACTS.clear()
+            S.CONTRACTS.update(saved)
+        out.extend(v for v in vcs if v.kind == "post")
+        pr.ex.global_axioms.extend(a for a in ex.global_axioms if not any(a.eq(b) for b in pr.ex.global_axioms))
+    return out
+
+
+CTOR_DERIVED = {
+    "rp2.in_transaction.InTransaction.__init__": ["fiat_fee_from_crypto_fee", "fiat_fee_supplied", "fiat_in_no_fee", "fiat_in_with_fee"],
+    "rp2.out_transaction.OutTransaction.__init__": ["crypto_out_with_fee", "fiat_out_no_fee", "fiat_fee"],
+    "rp2.intra_transaction.IntraTransaction.__init__": ["fee_is_difference", "fiat_fee_valued_at_spot"],
+}
+CTOR_BOUND = "1e-25"
+
+
+def relax_eq(f, tol):
+    """Positive occurrences of an equality between Real terms `a == b` become |a - b| <= tol * |b| (b = the statement's formula);
+    everything in negative position is left exact (sound: the relaxed formula is implied by nothing weaker than the original)."""
+    def absr(x): return z3.If(x >= 0, x, -x)
+
+    def go(e, pos):
+        if not z3.is_app(e):
+            return e
+        k = e.decl().kind()
+        ch = e.children()
+        if k == z3.Z3_OP_AND:
+            return z3.And(*[go(c, pos) for c in ch])
+        if k == z3.Z3_OP_OR:
+            return z3.Or(*[go(c, pos) for c in ch])
+        if k == z3.Z3_OP_NOT:
+            return z3.Not(go(ch[0], not pos))
+        if k == z3.Z3_OP_IMPLIES:
+            return z3.Implies(go(ch[0], not pos), go(ch[1], pos))
+        if k == z3.Z3_OP_EQ and pos and ch[0].sort() == z3.RealSort():
+            return absr(ch[0] - ch[1]) <= tol * absr(ch[1])
+        return e
+    return go(f, True)
+
+
+def rounding_ctors(pr):
+    """Rounded-mode re-execution of the three constructors: every derived fiat/crypto field is within 1e-25 relative of the statement's
+    formula (amount x spot price, fee x spot price, sums), so that the getters' 1e-15 bound composes with a margin of ten orders of magnitude.
+    A derivation that is equal over the reals but cancels (e.g. sent*price - received*price for a fee) is refuted here."""
+    prec, _ = context_precision(pr)
+    if not isinstance(prec, int):
+        return []
+    eps = z3.RealVal(f"5e-{prec}")
+    tol = z3.RealVal(CTOR_BOUND)
+    out = []
+    for q, labels in CTOR_DERIVED.items():
+        base = S.CONTRACTS[q]
+        ex = Exec(pr.tree)
+        ex.rounded_mode, ex.rounding_eps, ex.deltas = True, eps, []
+        k = S.Contract(q)
+        k.requires_ = list(base.requires_)
+        k.raises_ = list(base.raises_)
+        for lbl, f in base.ensures_:
+            if lbl in labels:
+                k.ensures("rounded." + lbl, lambda s, f=f: relax_eq(f(s), tol))
+        missing = [l for l in labels if l not in [x for x, _ in base.ensures_]]
+        if missing:
+            pr.engine_faults.append(f"rounding_ctors: clauses {missing} no longer exist in the contract of {q}")
+        saved = dict(S.CONTRACTS)
         S.CONTRACTS[q] = k
         try:
             vcs = ex.verify(q, f"rounded:{q}")
